@@ -9,7 +9,12 @@ id only). Per channel: direction, independent payloads for stdout and stderr (0.
 from a drawn seed), a cyclic (stream, chunk size) send pattern executed by one sender thread with
 sendall / sendall_stderr, then send_exit_status (server->client channels) and shutdown_write; two
 reader threads with their own cyclic read-size patterns; combine_stderr none / before the transfer /
-switched on by the main thread once half of the channel's bytes were read. 0-2 renegotiate_keys()
+switched on by the main thread once half of the channel's bytes were read.
+Per-direction limits (round 3): the server transport's default window / maximum packet size (what the server end advertises) and the
+window / maximum packet size the client asks for per channel in open_session are drawn independently (packet 4096..2^20, window
+32768..2 MiB), so the two directions of a channel have different maximum packet sizes and windows, and writes larger than the smaller
+limit travel towards the end that advertised the larger one (classes max-packet:*).
+0-2 renegotiate_keys()
 calls (either side, one at a time: a client round trip under the new keys follows each, so that BOTH sides are through before
 the next one starts) while the transfers run. Channels are only closed after the
 rekeys have finished (the transports are shut down at the end of the case), which keeps the
@@ -59,7 +64,9 @@ LEVEL = "exploration"
 RULE = (
     "1-8 concurrent channels x direction x per-stream payload 0..512 KiB (seeded) x send chunk pattern (1..100000) x read size "
     "patterns x combine_stderr none/start/mid (stderr being read)/mid-unread (stderr not read before the switch) x exit status 0..2^32-1 x 0-2 renegotiate_keys during transfer x compression on/off x "
-    "cipher x MAC x link fragmentation x 0-3 id offset between the two sides; non-trivial = >= 2 channels or a rekey or a mid-transfer "
+    "cipher x MAC x link fragmentation x 0-3 id offset between the two sides x server-end default window {2 MiB,32768,100000} / max packet "
+    "{32768,4096,8192,65536} x per-channel client-end window {2 MiB,32768,65536} / max packet {32768,4096,5000,65536,2^20} (different limits per "
+    "direction); non-trivial = >= 2 channels or a rekey or a mid-transfer "
     "combine; distinct by the whole case. E4 e4combine: <= 5 DATA/EXTENDED_DATA feeds || set_combine_stderr(True) || optional readers under "
     "the deterministic scheduler (line-level switch points), non-trivial = >= 2 stderr feeds. handler: 1-2 channels x request kind "
     "exec|shell|subsystem|env|pty|window-change whose server-side handler writes 2-8 stdout/stderr chunks (1..40000 bytes), exit status "
@@ -114,6 +121,7 @@ class Chan:
         if spec["combine"] != "mid-unread":
             self.go_err.set()
         self.schan = self.rchan = None
+        self.small_window = False
 
     def sender(self):
         pos = [0, 0]
@@ -149,10 +157,31 @@ class Chan:
             self.res[k] = "error: %r" % (e,)
 
 
+def _limit_classes(case):
+    """Per channel: how the two directions' maximum packet sizes relate, and whether writes bigger than the smaller limit travel
+    towards the end that advertised the bigger one."""
+    out = []
+    srv_p = max(4096, case.get("srv_p") or 32768)
+    for c in case["chans"]:
+        cli_p = max(4096, c.get("cp") or 32768)
+        if cli_p == srv_p:
+            out.append("max-packet:same-both-directions")
+            continue
+        out.append("max-packet:%s-end-advertises-less" % ("client" if cli_p < srv_p else "server"))
+        small = min(cli_p, srv_p)
+        to_big_end = (c["dir"] == "c2s") == (cli_p < srv_p)  # receiver is the end with the bigger limit
+        if to_big_end and (c["out"] + c["err"]) > small and any(size > small for _, size in c["pattern"]):
+            out.append("max-packet:writes-above-the-smaller-limit-towards-the-end-with-the-bigger-one")
+        if (c.get("cw") or 2097152) != (case.get("srv_w") or 2097152):
+            out.append("window:differs-per-direction")
+    return out
+
+
 def run_case(ctx, case):
     nontrivial = len(case["chans"]) >= 2 or bool(case["rekeys"]) or any(c["combine"].startswith("mid") for c in case["chans"])
     classes = ["chans=%d" % len(case["chans"]), "rekeys=%d" % len(case["rekeys"]), "compress=%s" % case["compress"], "cipher=" + case["cipher"], "mac=" + case["mac"]]
     classes += sorted(set("combine=" + c["combine"] for c in case["chans"])) + sorted(set("dir=" + c["dir"] for c in case["chans"]))
+    classes += sorted(set(_limit_classes(case)))
     ctx.case(case, nontrivial, classes)
     v = run_once(ctx, case)
     if v is None:
@@ -198,7 +227,14 @@ def run_case(ctx, case):
 
 def run_once(ctx, case):
     """None = all oracles passed; else (clause, bucket, detail); clause "stalled" = no progress for STALL s."""
-    link, tc, ts = peers.make_pair()
+    # the two ends' limits for what each RECEIVES are independent (RFC 4254: every side advertises its own window and maximum
+    # packet size): the server transport's defaults, and what the client asks for per channel in open_session
+    srv_kw = {}
+    if case.get("srv_w") is not None:
+        srv_kw["default_window_size"] = case["srv_w"]
+    if case.get("srv_p") is not None:
+        srv_kw["default_max_packet_size"] = case["srv_p"]
+    link, tc, ts = peers.make_pair(server_kw=srv_kw or None)
     threads = []
     try:
         for t in (tc, ts):
@@ -228,11 +264,13 @@ def run_once(ctx, case):
         chans = []
         for i, spec in enumerate(case["chans"]):
             ch = Chan(i, spec)
-            c = tc.open_session(timeout=TO)
+            c = tc.open_session(window_size=spec.get("cw"), max_packet_size=spec.get("cp"), timeout=TO)
             s = ts.accept(TO)
             if s is None:
                 raise peers.core.HarnessError("C21 harness: accept() returned nothing")
             ch.schan, ch.rchan = (s, c) if spec["dir"] == "s2c" else (c, s)
+            # window of the receiving end; when it cannot hold the whole transfer, unread stderr can fill it up
+            ch.small_window = ((spec.get("cw") if spec["dir"] == "s2c" else case.get("srv_w")) or 2097152) < ch.total
             if spec["combine"] == "start":
                 ch.rchan.set_combine_stderr(True)
             chans.append(ch)
@@ -282,6 +320,11 @@ def run_once(ctx, case):
                     due = ch.rx[0] + ch.rx[1] >= ch.total // 2
                 else:  # mid-unread: stderr sent so far sits in the buffer
                     due = ch.tx >= (ch.total + 1) // 2 or "sender" in ch.res
+                    if not due and ch.small_window:
+                        # an application that leaves stderr unread until half of the transfer has been SENT stops being a
+                        # reading receiver once the unread stderr data fills the window (the sender cannot get to the half):
+                        # with a window smaller than the transfer the switch happens as soon as stderr data is waiting
+                        due = ch.rchan.recv_stderr_ready()
                 if due:
                     ch.rchan.set_combine_stderr(True)
                     ch.combined = True
@@ -760,10 +803,10 @@ sizes = st.one_of(st.sampled_from([0, 1, 32768, 524288]), st.integers(0, 524288)
 
 
 def chan_specs(cap):
-    def build(d, seed, n_out, n_err, pattern, reads, ereads, combine, status):
+    def build(d, seed, n_out, n_err, pattern, reads, ereads, combine, status, cw, cp):
         mean_c = sum(s for _, s in pattern) / len(pattern)
         lim = int(min(cap, 1500 * mean_c, 3000 * (sum(reads) / len(reads)), 3000 * (sum(ereads) / len(ereads))))
-        return {"dir": d, "seed": seed, "out": min(n_out, lim), "err": min(n_err, lim), "pattern": pattern, "reads": reads, "ereads": ereads, "combine": combine, "status": status}
+        return {"dir": d, "seed": seed, "out": min(n_out, lim), "err": min(n_err, lim), "pattern": pattern, "reads": reads, "ereads": ereads, "combine": combine, "status": status, "cw": cw, "cp": cp}
 
     return st.builds(
         build,
@@ -776,17 +819,27 @@ def chan_specs(cap):
         st.lists(read_sizes, min_size=1, max_size=3),
         st.sampled_from(["none", "none", "start", "mid", "mid-unread"]),
         st.one_of(st.sampled_from([0, 1, 255, 256, 0x7FFFFFFF, 0x80000000, 0xFFFFFFFF]), st.integers(0, 0xFFFFFFFF)),
+        st.sampled_from(CLI_WINDOWS),
+        st.sampled_from(CLI_PACKETS),
     )
 
 
+# what the client asks for per channel (open_session(window_size=, max_packet_size=); None = transport default 2 MiB / 32768) and the
+# server transport's defaults (what the server end advertises for every channel): the two directions of a channel get different limits
+CLI_WINDOWS = [None, None, None, 32768, 65536, 1 << 21]
+CLI_PACKETS = [None, None, 4096, 4096, 5000, 32768, 65536, 1 << 20]
+SRV_WINDOWS = [None, None, 32768, 100000]
+SRV_PACKETS = [None, None, 4096, 8192, 65536, 65536]
+
+
 def case_strategy(total_cap):
-    def build(chans, rekeys, compress, cipher, mac, frag, id_offset):
+    def build(chans, rekeys, compress, cipher, mac, frag, id_offset, srv_w, srv_p):
         # keep the whole case under total_cap bytes
         per = max(1, total_cap // max(1, len(chans)))
         for c in chans:
             c["out"] = min(c["out"], per)
             c["err"] = min(c["err"], per)
-        return {"chans": chans, "rekeys": rekeys, "compress": compress, "cipher": cipher, "mac": mac, "frag": frag, "id_offset": id_offset}
+        return {"chans": chans, "rekeys": rekeys, "compress": compress, "cipher": cipher, "mac": mac, "frag": frag, "id_offset": id_offset, "srv_w": srv_w, "srv_p": srv_p}
 
     return st.builds(
         build,
@@ -797,6 +850,8 @@ def case_strategy(total_cap):
         st.sampled_from(MACS),
         st.one_of(st.just([]), st.lists(st.sampled_from([16, 100, 1000, 4096, 40000]), min_size=1, max_size=4)),
         st.integers(0, 3),
+        st.sampled_from(SRV_WINDOWS),
+        st.sampled_from(SRV_PACKETS),
     )
 
 
